@@ -20,6 +20,11 @@ class VariableBoundMinPropagator(VariableBoundPropagator):
         
         range_l = self.target.domain.range_l
         
+        if min_v is None or len(range_l) == 0:
+            # One of the domains involved is already empty: nothing
+            # is left to trim. The solver reports the failure.
+            return False
+        
 #        print("Min: range_l=" + str(range_l) + " min_v=" + str(min_v))
 
         # Note: assume domain ranges are ordered
